@@ -70,6 +70,9 @@ def run(ctx, rep):
     rep.check(f.adts.get(RC, {}).get("size") == 64, "R8.1", "R8.1|size64", "RdhCru is 64 bytes", RC)
     rep.floor("R8.1", nleaf, 23, "integer leaves of RdhCru")
     c03._decode_table(ctx, ev, rep)  # each leaf ← LE read of exactly its layout range (rule ids R3.6)
+    # packets that do not match are skipped by exactly their length on both reader back-ends (file and pipe): a
+    # partial skip desynchronises the scan and the filtered output contains bytes that are no packet (rule ids R3.9)
+    c03._backends(ctx, ev, rep)
     # any_as_u8_slice: from_raw_parts(param as *const u8, size_of::<T>())
     p = AP + "rdh::any_as_u8_slice"
     if p in f.fns:
